@@ -113,6 +113,7 @@ type BackendConn struct {
 	Frames      int
 	authPending bool
 	stalled     [][]byte
+	Out         func([]byte) // if set, replies are written here instead of to Link
 }
 
 func (n *Node) supports(v primitive.ProtocolVersion) bool {
@@ -182,12 +183,42 @@ func (c *BackendConn) reply(stream int16, msg message.Message, att *Attempt, des
 		}
 	}
 	raw := encodeFrame(c.Compression, frm)
+	if c.Out != nil {
+		if att != nil {
+			att.Replied, att.ReplyRaw = true, raw
+			delete(c.Outstanding, att.Stream)
+		}
+		c.Out(raw)
+		return
+	}
 	w.hold(&heldReply{conn: c, raw: raw, att: att, desc: desc, stream: stream})
 }
 
 func (c *BackendConn) replyNow(stream int16, msg message.Message) {
 	frm := frame.NewFrame(c.Version, stream, msg)
+	if c.Out != nil {
+		c.Out(encodeFrame(c.Compression, frm))
+		return
+	}
 	c.Link.PeerWrite(encodeFrame(c.Compression, frm))
+}
+
+// NewStreamConn creates a backend connection state machine that is fed decrypted bytes by a
+// harness task (a node behind a TLS-terminating SNI proxy); replies go to out.
+func (n *Node) NewStreamConn(out func([]byte)) *BackendConn {
+	n.ConnsSeen++
+	c := &BackendConn{Node: n, ID: n.w.nextConnID(), Outstanding: map[int16]bool{}, Out: out}
+	n.Conns = append(n.Conns, c)
+	return c
+}
+
+// Feed hands plaintext bytes to the state machine.
+func (c *BackendConn) Feed(b []byte) {
+	c.inbuf = append(c.inbuf, b...)
+	for _, raw := range splitFrames(&c.inbuf) {
+		c.Frames++
+		c.handle(raw)
+	}
 }
 
 // Reset kills the connection from the backend side.
